@@ -101,9 +101,9 @@ def run(ctx: core.Ctx):
             ctx.disagree("F", "autocorr_1d", inp, mv, r_int)
 
     # layouts, float32 store, accessor, dask
-    for _ in range(ctx.budget(5, 40)):
+    for k in range(ctx.budget(6, 40)):
         nt, ny, nx = rng.choice([5, 36, 100]), 3, 2
-        nd = -3000
+        nd = [-3000, 0, 32767, -1, 0, -32768][k % 6]     # incl. the falsy-but-valid marker 0 (a truthiness test on the attribute would drop it)
         cube = np.zeros((nt, ny, nx), dtype="int16")
         for i in range(ny):
             for j in range(nx):
